@@ -6,7 +6,8 @@
 //!           `saveatomic child <json>`) that runs under `strace`; faults are made by the operating
 //!           system: RLIMIT_FSIZE = k with SIGXFSZ ignored (EFBIG from byte k on), strace's
 //!           syscall fault injection (error at the i-th write / rename / unlink / openat), an
-//!           unwritable directory (the child drops root), a directory in the way, SIGKILL at the
+//!           unwritable directory (the child drops root), a directory in the way, a left-over
+//!           temporary file of `stale` junk bytes (an earlier save was killed), SIGKILL at the
 //!           j-th system call or after a delay.  The raw strace lines, the child's exit status and
 //!           the final content of the directory are returned; /verif/pydec/strace_events.py turns
 //!           the lines one-to-one into events.
@@ -391,6 +392,13 @@ fn run_path(case: &Value) -> Vec<Value> {
         }
         _ => {}
     }
+    // a temporary file that an earlier, killed save left behind: `stale` bytes of junk
+    let stale = case["stale"].as_u64().unwrap_or(0) as usize;
+    if stale > 0 && ft != "tmpisdir" {
+        let mut rng = Rng(0x57A1E);
+        let junk: Vec<u8> = (0..stale).map(|_| (rng.next() & 0xff) as u8 | 0x80).collect();
+        std::fs::write(&tmp, &junk).expect("write stale temporary file");
+    }
     let mut inject: Vec<String> = vec![];
     if ft == "inject" {
         for x in fault["exprs"].as_array().unwrap() {
@@ -438,7 +446,7 @@ fn run_path(case: &Value) -> Vec<Value> {
         }
     };
     let out = json!({
-        "a": "Raw", "case": id, "kind": "path", "inst": inst, "vol": vol, "existed": existed, "fault": fault,
+        "a": "Raw", "case": id, "kind": "path", "inst": inst, "vol": vol, "existed": existed, "fault": fault, "stale": stale,
         "size": volume, "reflen": ref_len, "pkglen": pkg_len, "pkgfnv": pkg_fnv, "password": PASSWORD,
         "dir": dir.to_str().unwrap(), "dest": dest.to_str().unwrap(), "tmp": tmp.to_str().unwrap(),
         "status": r.status, "elapsed_us": r.elapsed_us, "lines": r.lines,
@@ -524,7 +532,7 @@ fn run_sink(case: &Value) -> Vec<Value> {
         Err(p) => ("panic", panic_msg(&p)),
     };
     let mut evs = vec![json!({"a": "Begin", "case": id, "kind": "sink", "inst": inst, "size": size,
-                              "existed": false, "tmp0": "absent", "traced": true,
+                              "existed": false, "tmp0": "absent", "tmp0len": 0, "traced": true,
                               "fault": format!("writer accepts {:?} then {}", sink.accepts, sink.after)})];
     for w in &sink.log {
         evs.push(json!({"a": "SinkWrite", "n": w["n"], "m": w["m"], "res": w["res"]}));
